@@ -378,8 +378,23 @@ theorem Fr_handleSuccess (a : Agent) (now : Nat) (m : Msg) (l r : Cand) (src : N
         refine h.trans ?_
         refine Fr.trans (b := a1.modPair p.id fun q => { q with state := .succeeded, gResp := true, gRespUC := q.gRespUC || pd.useCand }) (by fr_mod) ?_
         generalize (a1.modPair p.id fun q => { q with state := .succeeded, gResp := true, gRespUC := q.gRespUC || pd.useCand }) = a2
-        repeat' split
-        all_goals first | exact Fr.refl _ | exact Fr_select _ _
+        split
+        · split
+          · split
+            · repeat' split
+              all_goals first
+                | exact Fr.refl _
+                | exact Fr.trans (b := { a2 with answeredNomination := some _ }) (by fr_same) (Fr_select _ _)
+            · split
+              · exact Fr_select _ _
+              · exact Fr.refl _
+          · exact Fr.refl _
+        · split
+          · dsimp only
+            refine Fr.trans ?_ (by fr_mod)
+            repeat' split
+            all_goals first | exact Fr.refl _ | exact Fr_select _ _
+          · exact Fr.refl _
 
 
 theorem Keep_sendSuccess (a : Agent) (now : Nat) (m : Msg) (l r : Cand) : Keep a (a.sendSuccess now m l r).1 := by
